@@ -1,6 +1,6 @@
 (* FieldProofs.v — reading back what the formatter wrote, field by field (C12, C20): the consume-from-the-front
    primitives on a text that starts with a known field. *)
-From Astro Require Import Base Text CalSpec DateModel TimeModel ApiModel InstantSpec FormatModel ParseModel
+From Astro Require Import Base Text CalSpec DateModel TimeModel ApiModel InstantSpec FormatModel ParseModel PatternSpec
   DateProofs TimeProofs ClockProofs OffsetProofs ErrProofs TextProofs PadProofs.
 
 (* ---------- the value of what zero_padded / u_to_string write ---------- *)
@@ -257,4 +257,314 @@ Proof.
   destruct (split_ok _ L) as [E _]. unfold local_instant, instant in E. rewrite E. cbn [unwrap bind]. rewrite pfs_dt_display. cbn [map].
   unfold date_text, clock_text, render_part, format_part, format_date_part, format_time_part, format_month. cbn [first_char length].
   destruct (days_to_date _) as [[y mo] d]. destruct (nanos_to_time _) as [[h mi] s]. cbn [concat_res bind]. rewrite <- !app_assoc. reflexivity.
+Qed.
+
+(* ================= C12: reading back each field the formatter wrote ================= *)
+(* ---------- numbers written without padding: one digit below 10, two below 100, three below 1000 ---------- *)
+Lemma u_to_string_1 n : 0 <= n < 10 -> u_to_string n = [48 + n].
+Proof. intros H. unfold u_to_string. cbn [digits_rev]. destruct (Z.ltb_spec n 10); [reflexivity | lia]. Qed.
+Lemma u_to_string_2 n : 10 <= n < 100 -> u_to_string n = [48 + n / 10; 48 + n mod 10].
+Proof.
+  intros H. unfold u_to_string. cbn [digits_rev]. destruct (Z.ltb_spec n 10); [lia|]. destruct (Z.ltb_spec (n / 10) 10); [reflexivity | lia].
+Qed.
+Lemma u_to_string_3 n : 100 <= n < 1000 -> u_to_string n = [48 + n / 10 / 10; 48 + (n / 10) mod 10; 48 + n mod 10].
+Proof.
+  intros H. unfold u_to_string. cbn [digits_rev]. destruct (Z.ltb_spec n 10); [lia|]. destruct (Z.ltb_spec (n / 10) 10); [lia|].
+  destruct (Z.ltb_spec (n / 10 / 10) 10); [reflexivity | lia].
+Qed.
+Lemma zero_padded_1 n : 0 <= n < 1000 -> zero_padded n 1 = u_to_string n.
+Proof.
+  intros H. unfold zero_padded. cbv zeta. assert (C : n < 10 \/ 10 <= n < 100 \/ 100 <= n) by lia.
+  destruct C as [C | [C | C]]; [rewrite u_to_string_1 | rewrite u_to_string_2 | rewrite u_to_string_3]; try lia; reflexivity.
+Qed.
+Lemma dig_ok x : 0 <= x <= 9 -> is_ascii_digit (48 + x) = true.
+Proof. intros H. unfold is_ascii_digit. destruct (Z.leb_spec 48 (48 + x)); [|lia]. destruct (Z.leb_spec (48 + x) 57); [reflexivity | lia]. Qed.
+
+(* "look ahead one character": a one-letter numeric field followed by something that is not a digit *)
+Lemma pick_1or2_var x rest : 0 <= x < 100 -> nth_is_digit rest 0 = false ->
+  (if nth_is_digit (zero_padded x 1 ++ rest) 1 then pick_u32 2 (zero_padded x 1 ++ rest) else pick_u32 1 (zero_padded x 1 ++ rest)) = Ok (x, rest).
+Proof.
+  intros Hx Hr. rewrite zero_padded_1 by lia. destruct (Z.ltb_spec x 10).
+  - rewrite u_to_string_1 by lia. change (nth_is_digit ([48 + x] ++ rest) 1) with (nth_is_digit rest 0). rewrite Hr.
+    change 1 with (char_count [48 + x]). rewrite pick_u32_app; [f_equal; f_equal; unfold digits_val; cbn [digits_val_aux]; lia | | discriminate |].
+    + cbn [all_digits forallb]. rewrite dig_ok by lia. reflexivity.
+    + unfold digits_val, U32_MAX. cbn [digits_val_aux]. lia.
+  - rewrite u_to_string_2 by lia. assert (D1 : nth_is_digit ([48 + x / 10; 48 + x mod 10] ++ rest) 1 = true).
+    { unfold nth_is_digit, nth_char. cbn [app nth_error]. apply dig_ok. lia. }
+    rewrite D1. change 2 with (char_count [48 + x / 10; 48 + x mod 10]).
+    rewrite pick_u32_app; [f_equal; f_equal; unfold digits_val; cbn [digits_val_aux]; lia | | discriminate |].
+    + cbn [all_digits forallb]. rewrite !dig_ok by lia. reflexivity.
+    + unfold digits_val, U32_MAX. cbn [digits_val_aux]. lia.
+Qed.
+Lemma pick_1or2_spec len x rest : (len = 1 \/ len = 2) -> 0 <= x < 100 -> (len = 1 -> nth_is_digit rest 0 = false) ->
+  pick_1or2 len (zero_padded x len ++ rest) = Ok (x, rest).
+Proof.
+  intros [-> | ->] Hx Hr; unfold pick_1or2; cbn [Z.eqb Pos.eqb].
+  - apply pick_1or2_var; [exact Hx | apply Hr; reflexivity].
+  - apply pick2. exact Hx.
+Qed.
+
+(* ---------- time fields: parse_time_part reads back what format_time_part wrote ---------- *)
+Definition run (c : Z) (w : Z) : text := repeat_c c (Z.to_nat w).
+Lemma run_first c w : 1 <= w -> first_char (run c w) = c.
+Proof. intros H. unfold run. destruct (Z.to_nat w) eqn:E; [lia | reflexivity]. Qed.
+Lemma run_len c w : 0 <= w -> Z.of_nat (length (run c w)) = w.
+Proof. intros H. unfold run. induction (Z.to_nat w) as [|k IH] eqn:E in w, H |- *; cbn [repeat_c length]; [lia|].
+  specialize (IH (w - 1) ltac:(lia) ltac:(lia)). lia. Qed.
+
+Lemma ptp_unfold c w s : 1 <= w ->
+  parse_time_part (run c w) s =
+  (let len := w in
+  if c =? 97 then
+    match len with
+    | 4 => let? '(p, rest) := pick_text 4 s in
+           if text_eqb p (t [97;46;109;46]) then some_part PPeriod 0 rest else if text_eqb p (t [112;46;109;46]) then some_part PPeriod 1 rest else fmt_err
+    | 5 => let? '(p, rest) := pick_text 1 s in
+           if text_eqb p (t [97]) then some_part PPeriod 0 rest else if text_eqb p (t [112]) then some_part PPeriod 1 rest else fmt_err
+    | _ => let? '(p, rest) := pick_text 2 s in
+           if text_eqb p (t [97;109]) || text_eqb p (t [65;77]) then some_part PPeriod 0 rest
+           else if text_eqb p (t [112;109]) || text_eqb p (t [80;77]) then some_part PPeriod 1 rest else fmt_err
+    end
+  else if c =? 98 then
+    let tbl := match len with
+               | 4 => [(t [97;46;109;46], 0); (t [109;105;100;110;105;103;104;116], 0); (t [112;46;109;46], 1); (t [110;111;111;110], 1)]
+               | 5 => [(t [97], 0); (t [109;105], 0); (t [112], 1); (t [110], 1)]
+               | _ => [(t [97;109], 0); (t [65;77], 0); (t [109;105;100;110;105;103;104;116], 0); (t [112;109], 1); (t [80;77], 1); (t [110;111;111;110], 1)]
+               end in
+    match period_value tbl s with
+    | Some (v, e) => let? rest := must (remove_part (byte_len e) s) in some_part PPeriod v rest
+    | None => fmt_err end
+  else if c =? 104 then
+    (if (len =? 1) && negb (nth_is_digit s 1) then (let? '(v, rest) := pick_u32 1 s in some_part PPeriodHour v rest)
+     else (let? '(v, rest) := pick_u32 2 s in some_part PPeriodHour (if v =? 12 then 0 else v) rest))
+  else if c =? 72 then (let? '(v, rest) := pick_1or2 len s in some_part PHour v rest)
+  else if c =? 75 then (let? '(v, rest) := pick_1or2 len s in some_part PPeriodHour v rest)
+  else if c =? 107 then
+    (if (len =? 1) && negb (nth_is_digit s 1) then (let? '(v, rest) := pick_u32 1 s in some_part PHour v rest)
+     else (let? '(v, rest) := pick_u32 2 s in some_part PHour (if v =? 24 then 0 else v) rest))
+  else if c =? 109 then (let? '(v, rest) := pick_1or2 len s in some_part PMinute v rest)
+  else if c =? 115 then (let? '(v, rest) := pick_1or2 len s in some_part PSecond v rest)
+  else if c =? 110 then
+    match len with
+    | 1 => let? '(v, rest) := pick_u32 1 s in some_part PDecis v rest
+    | 2 => let? '(v, rest) := pick_u32 2 s in some_part PCentis v rest
+    | 4 => let? '(v, rest) := pick_u32 6 s in some_part PMicros v rest
+    | 5 => let? '(v, rest) := pick_u32 9 s in some_part PNanos v rest
+    | _ => let? '(v, rest) := pick_u32 3 s in some_part PMillis v rest
+    end
+  else if c =? 88 then parse_zone len s true
+  else if c =? 120 then parse_zone len s false
+  else (let? rest := remove_part (byte_len (run c w)) s in no_part rest)).
+Proof. intros H. unfold parse_time_part. cbv zeta. rewrite run_first by exact H. rewrite run_len by lia. reflexivity. Qed.
+
+(* H, K, m, s : widths 1 (next character not a digit) and 2 *)
+Lemma simple_field_back c w u x rest : (c = 72 /\ u = PHour) \/ (c = 75 /\ u = PPeriodHour) \/ (c = 109 /\ u = PMinute) \/ (c = 115 /\ u = PSecond) ->
+  (w = 1 \/ w = 2) -> 0 <= x < 100 -> (w = 1 -> nth_is_digit rest 0 = false) ->
+  parse_time_part (run c w) (zero_padded x w ++ rest) = Ok (Some (u, x), rest).
+Proof.
+  intros Hc Hw Hx Hr. rewrite ptp_unfold by lia. cbv zeta.
+  destruct Hc as [[-> ->] | [[-> ->] | [[-> ->] | [-> ->]]]]; cbn [Z.eqb Pos.eqb]; rewrite (pick_1or2_spec w x rest Hw Hx Hr); reflexivity.
+Qed.
+
+Lemma zp1_small x rest : 0 <= x < 10 -> nth_is_digit rest 0 = false ->
+  nth_is_digit (zero_padded x 1 ++ rest) 1 = false /\ pick_u32 1 (zero_padded x 1 ++ rest) = Ok (x, rest).
+Proof.
+  intros Hx Hr. rewrite zero_padded_1, u_to_string_1 by lia. split; [exact Hr|].
+  change 1 with (char_count [48 + x]). rewrite pick_u32_app; [f_equal; f_equal; unfold digits_val; cbn [digits_val_aux]; lia | | discriminate |].
+  - cbn [all_digits forallb]. rewrite dig_ok by lia. reflexivity.
+  - unfold digits_val, U32_MAX. cbn [digits_val_aux]. lia.
+Qed.
+Lemma zp1_big x rest : 10 <= x < 100 ->
+  nth_is_digit (zero_padded x 1 ++ rest) 1 = true /\ pick_u32 2 (zero_padded x 1 ++ rest) = Ok (x, rest).
+Proof.
+  intros Hx. rewrite zero_padded_1, u_to_string_2 by lia. split.
+  - unfold nth_is_digit, nth_char. cbn [app nth_error]. apply dig_ok. lia.
+  - change 2 with (char_count [48 + x / 10; 48 + x mod 10]).
+    rewrite pick_u32_app; [f_equal; f_equal; unfold digits_val; cbn [digits_val_aux]; lia | | discriminate |].
+    + cbn [all_digits forallb]. rewrite !dig_ok by lia. reflexivity.
+    + unfold digits_val, U32_MAX. cbn [digits_val_aux]. lia.
+Qed.
+
+(* h: 12-hour clock 1..12 written, 0..11 read; k: 1..24 written, 0..23 read *)
+Lemma h_back w h12 rest : (w = 1 \/ w = 2) -> 0 <= h12 < 12 -> (w = 1 -> nth_is_digit rest 0 = false) ->
+  parse_time_part (run 104 w) (zero_padded (if h12 =? 0 then 12 else h12) w ++ rest) = Ok (Some (PPeriodHour, h12), rest).
+Proof.
+  intros Hw Hh Hr. rewrite ptp_unfold by lia. cbv zeta. cbn [Z.eqb Pos.eqb]. set (hh := if h12 =? 0 then 12 else h12).
+  assert (Hhh : 1 <= hh <= 12 /\ (if hh =? 12 then 0 else hh) = h12).
+  { subst hh. destruct (Z.eqb_spec h12 0); [subst; split; [lia | reflexivity]|]. destruct (Z.eqb_spec h12 12); lia. }
+  destruct Hhh as [Hb Hm]. destruct Hw as [-> | ->]; cbn [Z.eqb Pos.eqb andb].
+  - destruct (Z.ltb_spec hh 10).
+    + destruct (zp1_small hh rest ltac:(lia) (Hr eq_refl)) as [A B]. rewrite A. cbn [negb]. rewrite B. cbn [bind]. unfold some_part. repeat f_equal.
+      destruct (Z.eqb_spec hh 12); lia.
+    + destruct (zp1_big hh rest ltac:(lia)) as [A B]. rewrite A. cbn [negb]. rewrite B. cbn [bind]. unfold some_part. rewrite Hm. reflexivity.
+  - rewrite pick2 by lia. cbn [bind]. unfold some_part. rewrite Hm. reflexivity.
+Qed.
+Lemma k_back w h rest : (w = 1 \/ w = 2) -> 0 <= h < 24 -> (w = 1 -> nth_is_digit rest 0 = false) ->
+  parse_time_part (run 107 w) (zero_padded (if h =? 0 then 24 else h) w ++ rest) = Ok (Some (PHour, h), rest).
+Proof.
+  intros Hw Hh Hr. rewrite ptp_unfold by lia. cbv zeta. cbn [Z.eqb Pos.eqb]. set (hh := if h =? 0 then 24 else h).
+  assert (Hhh : 1 <= hh <= 24 /\ (if hh =? 24 then 0 else hh) = h).
+  { subst hh. destruct (Z.eqb_spec h 0); [subst; split; [lia | reflexivity]|]. destruct (Z.eqb_spec h 24); lia. }
+  destruct Hhh as [Hb Hm]. destruct Hw as [-> | ->]; cbn [Z.eqb Pos.eqb andb].
+  - destruct (Z.ltb_spec hh 10).
+    + destruct (zp1_small hh rest ltac:(lia) (Hr eq_refl)) as [A B]. rewrite A. cbn [negb]. rewrite B. cbn [bind]. unfold some_part. repeat f_equal.
+      destruct (Z.eqb_spec hh 24); lia.
+    + destruct (zp1_big hh rest ltac:(lia)) as [A B]. rewrite A. cbn [negb]. rewrite B. cbn [bind]. unfold some_part. rewrite Hm. reflexivity.
+  - rewrite pick2 by lia. cbn [bind]. unfold some_part. rewrite Hm. reflexivity.
+Qed.
+
+(* n: fixed numbers of fraction digits *)
+Lemma pickk k x rest : (1 <= k <= 9)%nat -> 0 <= x < 10 ^ Z.of_nat k -> pick_u32 (Z.of_nat k) (zero_padded x (Z.of_nat k) ++ rest) = Ok (x, rest).
+Proof.
+  intros Hk Hx. rewrite (zero_padded_dec x k) by lia. replace (Z.of_nat k) with (char_count (dec k x)) at 1 by (unfold char_count; rewrite dec_length; reflexivity).
+  rewrite pick_u32_app.
+  - rewrite dec_val by exact Hx. reflexivity.
+  - apply dec_digits.
+  - intros E. apply (f_equal (@length Z)) in E. rewrite dec_length in E. cbn in E. lia.
+  - rewrite dec_val by exact Hx. assert (10 ^ Z.of_nat k <= 10 ^ 9) by (apply Z.pow_le_mono_r; lia). change (10 ^ 9) with 1000000000 in *. unfold U32_MAX. lia.
+Qed.
+Lemma n_back w ss rest : 1 <= w -> 0 <= ss < 1000000000 ->
+  let k := if 5 <? w then 3 else if w =? 4 then 6 else if w =? 5 then 9 else w in
+  let u := match w with 1 => PDecis | 2 => PCentis | 4 => PMicros | 5 => PNanos | _ => PMillis end in
+  parse_time_part (run 110 w) (zero_padded (ss / 10 ^ (9 - k)) k ++ rest) = Ok (Some (u, ss / 10 ^ (9 - k)), rest).
+Proof.
+  intros Hw Hs. cbv zeta. rewrite ptp_unfold by lia. cbv zeta. cbn [Z.eqb Pos.eqb].
+  assert (C : w = 1 \/ w = 2 \/ w = 3 \/ w = 4 \/ w = 5 \/ 5 < w) by lia.
+  destruct C as [-> | [-> | [-> | [-> | [-> | C]]]]].
+  - cbn [Z.ltb Z.eqb Z.compare Pos.compare Pos.compare_cont Pos.eqb]. change (10 ^ (9 - 1)) with 100000000. rewrite (pickk 1) by (cbn; lia). reflexivity.
+  - cbn [Z.ltb Z.eqb Z.compare Pos.compare Pos.compare_cont Pos.eqb]. change (10 ^ (9 - 2)) with 10000000. rewrite (pickk 2) by (cbn; lia). reflexivity.
+  - cbn [Z.ltb Z.eqb Z.compare Pos.compare Pos.compare_cont Pos.eqb]. change (10 ^ (9 - 3)) with 1000000. rewrite (pickk 3) by (cbn; lia). reflexivity.
+  - cbn [Z.ltb Z.eqb Z.compare Pos.compare Pos.compare_cont Pos.eqb]. change (10 ^ (9 - 6)) with 1000. rewrite (pickk 6) by (cbn; lia). reflexivity.
+  - cbn [Z.ltb Z.eqb Z.compare Pos.compare Pos.compare_cont Pos.eqb]. change (10 ^ (9 - 9)) with 1. rewrite (pickk 9) by (cbn; lia). reflexivity.
+  - destruct (Z.ltb_spec 5 w); [|lia]. change (10 ^ (9 - 3)) with 1000000.
+    assert (M : match w with 1 => PDecis | 2 => PCentis | 4 => PMicros | 5 => PNanos | _ => PMillis end = PMillis /\
+                match w with
+                | 1 => let? '(v, rest0) := pick_u32 1 (zero_padded (ss / 1000000) 3 ++ rest) in some_part PDecis v rest0
+                | 2 => let? '(v, rest0) := pick_u32 2 (zero_padded (ss / 1000000) 3 ++ rest) in some_part PCentis v rest0
+                | 4 => let? '(v, rest0) := pick_u32 6 (zero_padded (ss / 1000000) 3 ++ rest) in some_part PMicros v rest0
+                | 5 => let? '(v, rest0) := pick_u32 9 (zero_padded (ss / 1000000) 3 ++ rest) in some_part PNanos v rest0
+                | _ => let? '(v, rest0) := pick_u32 3 (zero_padded (ss / 1000000) 3 ++ rest) in some_part PMillis v rest0
+                end = (let? '(v, rest0) := pick_u32 3 (zero_padded (ss / 1000000) 3 ++ rest) in some_part PMillis v rest0)).
+    { destruct w as [|p|p]; try lia. do 3 (try destruct p as [p|p|]); try lia; split; reflexivity. }
+    destruct M as [-> ->]. rewrite (pickk 3) by (cbn; lia). reflexivity.
+Qed.
+
+(* a / b: the day-period texts *)
+Lemma pick_text_lit a rest : pick_text (Z.of_nat (length a)) (a ++ rest) = Ok (a, rest).
+Proof. apply pick_text_app. Qed.
+Lemma a_back w pm rest : 1 <= w ->
+  parse_time_part (run 97 w) (period_text (if 5 <? w then 3 else w) pm ++ rest) = Ok (Some (PPeriod, if pm then 1 else 0), rest).
+Proof.
+  intros Hw. rewrite ptp_unfold by lia. cbv zeta. cbn [Z.eqb Pos.eqb].
+  assert (C : w = 1 \/ w = 2 \/ w = 3 \/ w = 4 \/ w = 5 \/ 5 < w) by lia.
+  destruct C as [-> | [-> | [-> | [-> | [-> | C]]]]]; try (destruct pm; cbn [Z.ltb Z.compare Pos.compare Pos.compare_cont period_text S_];
+    match goal with |- context [pick_text ?k (?a ++ ?r)] => change k with (Z.of_nat (length a)); rewrite (pick_text_lit a r) end; reflexivity).
+  destruct (Z.ltb_spec 5 w); [|lia].
+  assert (M : forall A B Cc Dd : res (option (punit * Z) * text), match w with 4 => A | 5 => B | _ => Cc end = Cc).
+  { intros. destruct w as [|p|p]; try lia. do 3 (try destruct p as [p|p|]); try lia; reflexivity. }
+  rewrite M by exact fmt_err. destruct pm; cbn [period_text S_];
+    match goal with |- context [pick_text ?k (?a ++ ?r)] => change k with (Z.of_nat (length a)); rewrite (pick_text_lit a r) end; reflexivity.
+Qed.
+
+Definition b_text (st : Z) (kind : Z) : text :=     (* kind: 0 am, 1 pm, 2 midnight, 3 noon *)
+  match kind with
+  | 0 => period_text st false | 1 => period_text st true
+  | 2 => if st =? 5 then S_[109;105] else S_[109;105;100;110;105;103;104;116]
+  | _ => if st =? 5 then S_[110] else S_[110;111;111;110]
+  end.
+Lemma remove_lit a rest : must (remove_part (Z.of_nat (length a)) (a ++ rest)) = Ok rest.
+Proof. change (Z.of_nat (length a)) with (char_count a). rewrite remove_part_app. reflexivity. Qed.
+Lemma b_back w kind rest : 1 <= w -> 0 <= kind <= 3 ->
+  parse_time_part (run 98 w) (b_text (if 5 <? w then 3 else w) kind ++ rest) = Ok (Some (PPeriod, if (kind =? 0) || (kind =? 2) then 0 else 1), rest).
+Proof.
+  intros Hw Hk. rewrite ptp_unfold by lia. cbv zeta. cbn [Z.eqb Pos.eqb].
+  assert (K : kind = 0 \/ kind = 1 \/ kind = 2 \/ kind = 3) by lia.
+  assert (C : w = 1 \/ w = 2 \/ w = 3 \/ w = 4 \/ w = 5 \/ 5 < w) by lia.
+  destruct C as [-> | [-> | [-> | [-> | [-> | C]]]]].
+  1-5: destruct K as [-> | [-> | [-> | ->]]]; cbn [Z.ltb Z.compare Pos.compare Pos.compare_cont b_text period_text S_ Z.eqb Pos.eqb orb];
+       unfold period_value, starts_with, t, S_; cbn [length firstn app text_eqb Z.eqb Pos.eqb andb];
+       match goal with |- context [must (remove_part (byte_len ?e) ?s)] => match goal with |- _ = Ok (_, ?r) => change s with (e ++ r); change (byte_len e) with (Z.of_nat (length e)); rewrite (remove_lit e r) end end; reflexivity.
+  destruct (Z.ltb_spec 5 w); [|lia].
+  assert (M : forall A B Cc : list (text * Z), match w with 4 => A | 5 => B | _ => Cc end = Cc).
+  { intros. destruct w as [|p|p]; try lia. do 3 (try destruct p as [p|p|]); try lia; reflexivity. }
+  rewrite M.
+  destruct K as [-> | [-> | [-> | ->]]]; cbn [b_text period_text S_ Z.eqb Pos.eqb orb];
+       unfold period_value, starts_with, t, S_; cbn [length firstn app text_eqb Z.eqb Pos.eqb andb];
+       match goal with |- context [must (remove_part (byte_len ?e) ?s)] => match goal with |- _ = Ok (_, ?r) => change s with (e ++ r); change (byte_len e) with (Z.of_nat (length e)); rewrite (remove_lit e r) end end; reflexivity.
+Qed.
+
+(* X / x: the zone offset *)
+Definition zone_fits (w off : Z) (rest : text) : Prop :=
+  let a := Z.abs off in let minute := a mod 3600 / 60 in let second := a mod 3600 mod 60 in
+  match w with
+  | 1 => second = 0 /\ (minute = 0 -> nth_is_digit rest 0 = false)
+  | 4 => second = 0 -> nth_is_digit rest 0 = false
+  | 5 => second = 0 -> (nth_is_digit rest 1 && match nth_char rest 0 with Some c => c =? 58 | None => false end) = false
+  | _ => second = 0
+  end.
+
+Lemma pick1 c rest : pick_text 1 (c :: rest) = Ok ([c], rest).
+Proof. change 1 with (char_count [c]). change (c :: rest) with ([c] ++ rest). apply pick_text_app. Qed.
+Lemma must_remove1 c rest : must (remove_part 1 (c :: rest)) = Ok rest.
+Proof. rewrite remove1. reflexivity. Qed.
+
+Theorem zone_back w off z rest : 1 <= w -> off_ok off -> zone_fits w off rest ->
+  parse_zone w (format_zone w off z ++ rest) z = Ok (Some (POffset, off), rest).
+Proof.
+  intros Hw Ho Hf. unfold off_ok, SECS_PER_DAY in Ho. unfold format_zone, parse_zone.
+  destruct (z && (off =? 0)) eqn:Ez.
+  { apply andb_true_iff in Ez as [-> Ez]. apply Z.eqb_eq in Ez. subst off. cbn [app]. rewrite pick1. cbn [bind andb text_eqb Z.eqb Pos.eqb]. reflexivity. }
+  cbv zeta. set (a := Z.abs off) in *. set (hour := a / 3600). set (minute := a mod 3600 / 60). set (second := a mod 3600 mod 60).
+  assert (Ha : 0 <= a < 86400) by (subst a; lia).
+  assert (Hh : 0 <= hour < 24) by (subst hour; split; [apply Z.div_pos; lia | apply Z.div_lt_upper_bound; lia]).
+  assert (Hmi : 0 <= minute < 60) by (subst minute; pose proof (Z.mod_pos_bound a 3600 ltac:(lia)); split; [apply Z.div_pos; lia | apply Z.div_lt_upper_bound; lia]).
+  assert (Hs : 0 <= second < 60) by (subst second; apply Z.mod_pos_bound; lia).
+  assert (Hsum : hour * 3600 + minute * 60 + second = a) by (subst hour minute second; lia).
+  unfold zone_fits in Hf. fold a in Hf. cbv zeta in Hf. fold minute second in Hf.
+  set (sg := if off <? 0 then 45 else 43).
+  assert (Epre : (if off <? 0 then [45] else [43]) = [sg]) by (subst sg; destruct (off <? 0); reflexivity). rewrite Epre.
+  set (mult := if off <? 0 then -1 else 1).
+  assert (Emult : (if text_eqb [sg] [43] then Ok 1 else if text_eqb [sg] [45] then Ok (-1) else @fmt_err Z) = Ok mult)
+    by (subst sg mult; destruct (off <? 0); reflexivity).
+  assert (Ezz : (z && text_eqb [sg] [90]) = false) by (subst sg; destruct (off <? 0); destruct z; reflexivity).
+  assert (Hoff : mult * a = off) by (subst mult a; destruct (Z.ltb_spec off 0); lia).
+  assert (W : forall x, 0 <= x < 90000 -> wrap_u32 x = x) by (intros; unfold wrap_u32; lia).
+  clearbody hour minute second sg mult. clear Epre.
+  assert (C : w = 1 \/ w = 2 \/ w = 3 \/ w = 4 \/ w = 5 \/ 5 < w) by lia.
+  destruct C as [-> | [-> | [-> | [-> | [-> | C]]]]].
+  - (* +hh[mm] *) destruct Hf as [Hs0 Hm0]. cbn [app]. rewrite pick1. cbn [bind]. rewrite Ezz, Emult. cbn [bind]. rewrite <- app_assoc, pick2 by lia. cbn [bind].
+    destruct (Z.eqb_spec minute 0) as [Em|Em]; cbn [negb app].
+    + rewrite (Hm0 Em). unfold some_part. rewrite W by lia. repeat f_equal. lia.
+    + assert (N0 : nth_is_digit (zero_padded minute 2 ++ rest) 0 = true).
+      { rewrite (zero_padded_2 minute) by lia. unfold nth_is_digit, nth_char. cbn [app nth_error]. apply dig_ok. lia. }
+      rewrite N0. rewrite pick2 by lia. cbn [bind]. unfold some_part. rewrite W by lia. repeat f_equal. lia.
+  - cbn [app]. rewrite pick1. cbn [bind]. rewrite Ezz, Emult. cbn [bind]. rewrite <- app_assoc, pick2 by lia. cbn [bind].
+    rewrite pick2 by lia. cbn [bind]. unfold some_part. rewrite W by lia. repeat f_equal. lia.
+  - cbn [app]. rewrite pick1. cbn [bind]. rewrite Ezz, Emult. cbn [bind]. rewrite <- !app_assoc, pick2 by lia. cbn [bind app].
+    rewrite remove1. cbn [bind]. rewrite pick2 by lia. cbn [bind]. unfold some_part. rewrite W by lia. repeat f_equal. lia.
+  - (* +hhmm[ss] *) cbn [app]. rewrite pick1. cbn [bind]. rewrite Ezz, Emult. cbn [bind]. rewrite <- !app_assoc, pick2 by lia. cbn [bind].
+    destruct (Z.eqb_spec second 0) as [Es|Es]; cbn [negb app].
+    + assert (N2 : nth_is_digit (zero_padded minute 2 ++ rest) 2 = false).
+      { rewrite (zero_padded_2 minute) by lia. change (nth_is_digit ([48 + minute / 10; 48 + minute mod 10] ++ rest) 2) with (nth_is_digit rest 0). exact (Hf Es). }
+      rewrite N2. rewrite pick2 by lia. cbn [bind]. unfold some_part. rewrite W by lia. repeat f_equal. lia.
+    + assert (N2 : nth_is_digit (zero_padded minute 2 ++ zero_padded second 2 ++ rest) 2 = true).
+      { rewrite (zero_padded_2 minute), (zero_padded_2 second) by lia. unfold nth_is_digit, nth_char. cbn [app nth_error]. apply dig_ok. lia. }
+      rewrite N2. rewrite pick2 by lia. cbn [bind]. rewrite pick2 by lia. cbn [bind]. unfold some_part. rewrite W by lia. repeat f_equal. lia.
+  - (* +hh:mm[:ss] *) cbn [app]. rewrite pick1. cbn [bind]. rewrite Ezz, Emult. cbn [bind]. rewrite <- !app_assoc, pick2 by lia. cbn [bind app].
+    destruct (Z.eqb_spec second 0) as [Es|Es]; cbn [negb app]; rewrite ?app_nil_r, <- ?app_assoc; cbn [app].
+    + assert (N : (nth_is_digit (58 :: zero_padded minute 2 ++ rest) 4 && match nth_char (58 :: zero_padded minute 2 ++ rest) 3 with Some c => c =? 58 | None => false end) = false).
+      { rewrite (zero_padded_2 minute) by lia. exact (Hf Es). }
+      rewrite N. rewrite remove1. cbn [bind]. rewrite pick2 by lia. cbn [bind]. unfold some_part. rewrite W by lia. repeat f_equal. lia.
+    + assert (N : (nth_is_digit (58 :: zero_padded minute 2 ++ 58 :: zero_padded second 2 ++ rest) 4 &&
+                   match nth_char (58 :: zero_padded minute 2 ++ 58 :: zero_padded second 2 ++ rest) 3 with Some c => c =? 58 | None => false end) = true).
+      { rewrite (zero_padded_2 minute), (zero_padded_2 second) by lia. unfold nth_is_digit, nth_char. cbn [app nth_error]. rewrite dig_ok by lia. reflexivity. }
+      rewrite N. unfold zone5_with_seconds. rewrite must_remove1. cbn [bind]. rewrite pick2 by lia. cbn [bind]. rewrite must_remove1. cbn [bind].
+      rewrite pick2 by lia. cbn [bind]. unfold some_part. rewrite W by lia. repeat f_equal. lia.
+  - assert (M1 : forall A B Cc Dd E : text, match w with 1 => A | 2 => B | 4 => Cc | 5 => Dd | _ => E end = E).
+    { intros. destruct w as [|p|p]; try lia. do 3 (try destruct p as [p|p|]); try lia; reflexivity. }
+    assert (M2 : forall A B Cc Dd E : res (option (punit * Z) * text), match w with 1 => A | 2 => B | 4 => Cc | 5 => Dd | _ => E end = E).
+    { intros. destruct w as [|p|p]; try lia. do 3 (try destruct p as [p|p|]); try lia; reflexivity. }
+    assert (Hs0 : second = 0) by (destruct w as [|p|p]; try lia; do 3 (try destruct p as [p|p|]); try lia; exact Hf).
+    rewrite M1. cbn [app]. rewrite pick1. cbn [bind]. rewrite Ezz, Emult. cbn [bind]. rewrite <- !app_assoc, pick2 by lia. cbn [bind app].
+    rewrite M2. rewrite remove1. cbn [bind]. rewrite pick2 by lia. cbn [bind]. unfold some_part. rewrite W by lia. repeat f_equal. lia.
 Qed.
